@@ -323,6 +323,14 @@ pub fn run(tier: Tier) -> i32 {
         let long = super::c01::long_scenarios(Kind::Unordered, (|| Box::new(UnorderedProbe::new()) as Box<dyn Probe>) as fn() -> Box<dyn Probe>);
         super::run_link_scenarios_from(&mut rep, "m2-long", &long[..tier.pick(1, 2)], tier.pick(1, 2), tier.pick(120.0, 3000.0), 1000);
     }
+    if rep.machinery.is_none() {
+        let outage = super::c01::outage_scenarios(Kind::Unordered, (|| Box::new(UnorderedProbe::new()) as Box<dyn Probe>) as fn() -> Box<dyn Probe>, tier);
+        super::run_link_scenarios_from(&mut rep, "m2-outage", &outage, tier.pick(2, 3), tier.pick(120.0, 3000.0), 3000);
+    }
+    if rep.machinery.is_none() {
+        let many = super::c01::many_ranges_scenarios(Kind::Unordered, (|| Box::new(UnorderedProbe::new()) as Box<dyn Probe>) as fn() -> Box<dyn Probe>);
+        super::run_link_scenarios_from(&mut rep, "m2-many-ack-ranges", &many, tier.pick(1, 2), tier.pick(120.0, 3000.0), 4000);
+    }
     {
         let ks: Vec<usize> = tier.pick(vec![300, 1100, 1500, 2500], vec![255, 256, 257, 1023, 1024, 1025, 1100, 1500, 2500, 5000]);
         for &k in &ks {
@@ -360,6 +368,14 @@ pub fn replay(j: &J) -> i32 {
                 0
             }
         };
+    }
+    if j.get("scenario_index").and_then(|x| x.as_i()).unwrap_or(0) >= 4000 {
+        let many = super::c01::many_ranges_scenarios(Kind::Unordered, (|| Box::new(UnorderedProbe::new()) as Box<dyn Probe>) as fn() -> Box<dyn Probe>);
+        return super::replay_link_from(&many, j, 4000);
+    }
+    if j.get("scenario_index").and_then(|x| x.as_i()).unwrap_or(0) >= 3000 {
+        let outage = super::c01::outage_scenarios(Kind::Unordered, (|| Box::new(UnorderedProbe::new()) as Box<dyn Probe>) as fn() -> Box<dyn Probe>, tier);
+        return super::replay_link_from(&outage, j, 3000);
     }
     if j.get("scenario_index").and_then(|x| x.as_i()).unwrap_or(0) >= 1000 {
         let long = super::c01::long_scenarios(Kind::Unordered, (|| Box::new(UnorderedProbe::new()) as Box<dyn Probe>) as fn() -> Box<dyn Probe>);
